@@ -107,6 +107,9 @@ def finding_keys(sub, base_unions=frozenset()):
     for k in (r.get("dispatch_trace_keys") or []):
         if k.endswith("|leaf=no-handler"):
             keys.add(union_key(k[len("union="):-len("|leaf=no-handler")]))
+    if not keys and sub["check"] == "C17" and r.get("checker_code") == 4 and r.get("class"):
+        # a vector named after a class that is not a message class of the (named) metamodel: keyed by the class family
+        keys.add("vector-class-unknown:" + re.sub(r"(Request|Response|Notification)$", "", r["class"]))
     if not keys:
         inp = r.get("input") or {}
         what = json.dumps(r.get("what") or r.get("kind") or "")[:80]
@@ -155,7 +158,6 @@ def run(chk):
     known = {o["key"].replace("~", "").replace(" ", ""): o for o in opens}
     seen_known, unknown = {}, []
     results = []
-    skipped_c17 = []
     with V.scratch("c06-") as d:
         def one(item):
             name, model = item
@@ -169,11 +171,9 @@ def run(chk):
                     todo = [c for c in FAMILY_CHECKS.get(name, checks) if not (c == "C07" and any(x[0] == "rust" for x in crashes))]
                     if name == "core" and "C17" not in todo and not any(x[0] == "testdata" for x in crashes):
                         todo.append("C17")      # the test vectors of the evolved model (quick tier: on the combined model only)
-                    if "C17" in todo and any(not e.get("typeName") for e in model.get("requests", []) + model.get("notifications", [])):
-                        # C17's verified checker does not model how the CLASS of a message without typeName is named (Strict.msg_classes):
-                        # on such a model every vector of that message would be "of an unknown class" — not run, recorded
-                        todo = [c for c in todo if c != "C17"]
-                        skipped_c17.append(name)
+                    if name == "msgs-no-typename" and "C17" not in todo and not any(x[0] == "testdata" for x in crashes):
+                        todo.append("C17")      # the vectors of messages without typeName, in both tiers
+                    # (a message without typeName: C17 names its class through the evolved tree's own Python catalogue — props/c17.py named_model)
                     for cid in todo:
                         subs.append(run_subcheck(tree, cid, chk.seed))
                 # dotnet / testdata plugins must terminate successfully too
@@ -226,7 +226,6 @@ def run(chk):
                 if un:
                     unknown.append((un[0], name, json.dumps((s.get("replay") or {}).get("input"))[:600], s))
     chk.extra["evolved_models"] = [r["model"] for r in results]
-    chk.extra["C17_not_run_on_models_with_messages_without_typeName"] = sorted(set(skipped_c17))
     chk.extra["sub_checks_run"] = n_sub
     chk.extra["programs"] = len(results)
     chk.extra["explanation"] = ("sampled programs x proved per-program obligations: %d evolved metamodels (systematic families exhaustive over their targets + "
